@@ -222,7 +222,8 @@ def c17_cases(ctx):
         # one-call helpers against the Rust API
         k += 1
         ctx.add("h%d" % k, ["in %s" % hx(data), "mzcompress2 %d bound @" % level, "cvecrt %d 1 @" % (6 if level < 0 else level),
-                            "tdefl_mem_to_heap %d @" % (4096 | 128), "tdefl_mem_to_mem %d 100000 @" % (4096 | 128)],
+                            "tdefl_mem_to_heap %d @" % (4096 | 128), "tdefl_mem_to_mem %d 100000 @" % (4096 | 128),
+                            "tdefl_fit %d @" % rng.choice([4096 | 128, 128, 4096 | 1, 0x80000 | 4096])],
                 kind="helper", data=data, level=level)
         k += 1
         ctx.add("u%d" % k, ["in %s" % hx(comp if wb > 0 else zlib.compress(data)), "mzuncompress %d @" % (len(data) + rng.choice([0, 1, 100])),
@@ -305,6 +306,19 @@ def c17_eval(ctx):
                 f4 = parse_fields(res.get((cid, 5), ("", ""))[1])
                 if not bad and (f3["_"][:1] != ["ok"] or f3.get("full") != f4.get("full")):
                     bad = "tdefl_compress_mem_to_heap and tdefl_compress_mem_to_mem disagree"
+                f5 = parse_fields(res.get((cid, 6), ("", ""))[1])
+                if not bad and "n" in f5:
+                    n0 = f5["n"]
+                    exp = {"m1": "0:0:1" if n0 != "0" else "0:1:1", "eq": "%s:1:1" % n0, "p1": "%s:1:1" % n0, "p100": "%s:1:1" % n0}
+                    for tg, e in exp.items():
+                        got5 = f5.get(tg, "")
+                        if tg == "m1":
+                            # a failed call may have used the destination it was given (guard pages bound it): only the result counts
+                            got5, e = got5.split(":")[0], e.split(":")[0]
+                        if got5 != e:
+                            bad = ("tdefl_compress_mem_to_mem into a destination of n%s bytes (n=%s from mem_to_heap) gave len:same:clean = %s, "
+                                   "the Rust call gives %s" % ({"m1": "-1", "eq": "", "p1": "+1", "p100": "+100"}[tg], n0, f5.get(tg), e))
+                            break
             elif m["kind"] == "uhelper":
                 f1 = parse_fields(res.get((cid, 2), ("", ""))[1])
                 f2 = parse_fields(res.get((cid, 3), ("", ""))[1])
